@@ -1,7 +1,280 @@
-//! C09 — not implemented yet (see DESIGN.md section 4).
-use kit::Run;
-use serde_json::Value;
+//! C09 — embedding, replacing or removing a manifest preserves the media content.
+//!
+//! S-inp: every seed asset of every writable format plus a BMFF layout grammar (order of moov/meta, mdat, an
+//! already present C2PA box, free and XMP boxes x stco|co64 x 1-2 tracks; HEIF meta/iloc versions 0-2 x offset
+//! sizes x base-offset use) x store sizes (grow / shrink / equal) x op in {embed, replace, remove}.
+//! Oracle = `kit::walk::media` (independent): the list of non-manifest items (type, bytes) is unchanged in
+//! order, every absolute offset stored in the container (stco/co64 chunk offsets with stsc/stsz lengths, iloc
+//! extents, TIFF strips/tiles/sub-IFDs) addresses the same bytes as before; and
+//! remove(embed(X,S)) == remove(X) byte for byte.
+//!
+//! Mutants caught (tools/mutant_run.sh A <diff> C09 quick):
+//!   C09-skip-co64.diff  (adjust_known_offsets no longer patches co64)  -> VIOLATION
 
-pub fn run(_run: &Run, _replay: Option<&Value>) {
-    kit::ev::machinery("C09: check not implemented");
+use kit::embed::{self, kind_of_err, remove, save, Iloc, Table, Top};
+use kit::walk;
+use kit::{assets::Asset, par, Run};
+use serde_json::{json, Value};
+
+const SMALL: usize = 60;
+const MID: usize = 333;
+const BIG: usize = 70_001;
+
+fn layouts(thorough: bool) -> Vec<Asset> {
+    let mut out = vec![];
+    let il0 = Iloc { version: 0, offset_size: 4, base_offset_size: 0 };
+    let opt_sets: Vec<Vec<Top>> = vec![vec![], vec![Top::C2pa], vec![Top::Free], vec![Top::C2pa, Top::Free], vec![Top::Xmp], vec![Top::C2pa, Top::Xmp]];
+    for opts in &opt_sets {
+        let mut items = vec![Top::Moov, Top::Mdat];
+        items.extend(opts.iter().cloned());
+        for perm in embed::permutations(&items) {
+            let mut order = vec![Top::Ftyp];
+            order.extend(perm);
+            for table in [Table::Stco, Table::Co64] {
+                for tracks in [1usize, 2] {
+                    let name = format!("bmff[{}|{:?}|{}trk]", embed::order_name(&order), table, tracks);
+                    out.push(kit::assets::a(embed::leak(name), "video/mp4", "mp4", embed::bmff_layout(&order, table, tracks, il0)));
+                }
+            }
+        }
+    }
+    let heif_opts: Vec<Vec<Top>> = if thorough { vec![vec![], vec![Top::C2pa], vec![Top::Free], vec![Top::C2pa, Top::Free]] } else { vec![vec![], vec![Top::C2pa], vec![Top::Free]] };
+    for opts in &heif_opts {
+        let mut items = vec![Top::Meta, Top::Mdat];
+        items.extend(opts.iter().cloned());
+        for perm in embed::permutations(&items) {
+            let mut order = vec![Top::Ftyp];
+            order.extend(perm);
+            for version in [0u8, 1, 2] {
+                for offset_size in [4u8, 8] {
+                    for base_offset_size in [0u8, 4, 8] {
+                        let il = Iloc { version, offset_size, base_offset_size };
+                        let name = format!("heif[{}|iloc v{version} os{offset_size} bs{base_offset_size}]", embed::order_name(&order));
+                        out.push(kit::assets::a(embed::leak(name), "image/heic", "heic", embed::bmff_layout(&order, Table::Stco, 0, il)));
+                    }
+                }
+            }
+        }
+    }
+    out
+}
+
+fn all_assets(thorough: bool) -> Vec<Asset> {
+    let mut v = embed::seeds();
+    v.extend(layouts(thorough));
+    v
+}
+
+struct Ctx<'a> {
+    run: &'a Run,
+    a: &'a Asset,
+    k: walk::Kind,
+    base_media: Vec<walk::Item>,
+    removed_base: Option<Vec<u8>>,
+}
+
+fn label_class(s: &str) -> String {
+    // drop indices so that keys stay stable: "item 7 '/moov/trak/.../stco' ..." -> first quoted label without digits runs
+    let l = s.split('\'').nth(1).unwrap_or(s);
+    let mut out = String::new();
+    let mut last_digit = false;
+    for c in l.chars() {
+        if c.is_ascii_digit() {
+            if !last_digit {
+                out.push('N');
+            }
+            last_digit = true;
+        } else {
+            out.push(c);
+            last_digit = false;
+        }
+    }
+    out
+}
+
+impl Ctx<'_> {
+    fn fmt(&self) -> String {
+        // BMFF: add the offset-table form of the generated layout so that distinct defects get distinct keys
+        let n = self.a.name;
+        let form = if let Some(i) = n.find("|iloc v") {
+            let v = &n[i + 7..i + 8];
+            let base = !n.ends_with("bs0]");
+            format!(" table=iloc-v{v}-{}", if base { "base_offset" } else { "extent_offset" })
+        } else if n.contains("|Co64|") || n.contains("co64") {
+            " table=co64".to_string()
+        } else if self.k == walk::Kind::Bmff {
+            if n.contains("heic") { " table=iloc-v0-extent_offset".to_string() } else { " table=stco".to_string() }
+        } else {
+            String::new()
+        };
+        format!("{:?}{form}", self.k)
+    }
+    /// key = class, format, (BMFF: where the media data lay relative to the manifest box, offset-table form), first differing item, op
+    fn viol(&self, class: String, what: String, op: &str, rel: &str, first: &str) {
+        self.run.outcome(class.clone());
+        let rel = if rel.is_empty() { String::new() } else { format!(" {rel}") };
+        let first = if first.is_empty() { String::new() } else { format!(" first={first}") };
+        embed::report(self.run, format!("{class} fmt={}{rel}{first} op={op}", self.fmt()), format!("{} {op}: {what}", self.a.name), json!({"asset":self.a.name,"op":op}));
+    }
+    fn rel(&self, input: &[u8], result: Option<&[u8]>) -> &'static str {
+        if self.k != walk::Kind::Bmff {
+            return "";
+        }
+        match (bmff_rel(input), result) {
+            ("rel=no-c2pa", Some(r)) => bmff_rel(r),
+            (x, _) => x,
+        }
+    }
+    /// media(result) must equal media(original)
+    fn check_media(&self, op: &str, input: &[u8], result: &[u8]) -> bool {
+        self.run.eval();
+        match walk::media(self.k, result) {
+            Err(e) => {
+                self.viol("result-unparseable".into(), format!("independent walker cannot interpret the result: {e}"), op, self.rel(input, Some(result)), "");
+                false
+            }
+            Ok(m) => match walk::media_diff(&self.base_media, &m) {
+                None => {
+                    self.run.outcome("media-preserved");
+                    true
+                }
+                Some(d) => {
+                    self.viol("media-changed".into(), d.clone(), op, self.rel(input, Some(result)), &label_class(&d));
+                    false
+                }
+            },
+        }
+    }
+    fn step(&self, op: &str, input: &[u8], store: Option<&[u8]>) -> Option<Vec<u8>> {
+        let r = match store {
+            Some(s) => save(self.a.mime, input, s),
+            None => remove(self.a.mime, input),
+        };
+        match r {
+            Ok(o) => {
+                if self.check_media(op, input, &o) {
+                    self.run.nontrivial(format!("{}/{op}", self.a.name));
+                }
+                Some(o)
+            }
+            Err(e) => {
+                self.run.eval();
+                let cls = if e.starts_with("PANIC") { "panic".to_string() } else { format!("op-error {}", kind_of_err(&e)) };
+                self.viol(cls, e, op, self.rel(input, None), "");
+                None
+            }
+        }
+    }
+    fn remove_equals_base(&self, op: &str, input: &[u8]) {
+        let Some(base) = &self.removed_base else { return };
+        if let Some(d) = self.step(op, input, None) {
+            self.run.eval();
+            if &d != base {
+                let first = d.iter().zip(base.iter()).position(|(x, y)| x != y).unwrap_or(d.len().min(base.len()));
+                self.viol("remove-roundtrip-differs".into(), format!("remove(embed(X,S)) has {} bytes, remove(X) has {}; first difference at offset {first}", d.len(), base.len()), op, self.rel(input, None), "");
+            } else {
+                self.run.outcome("remove-roundtrip-equal");
+            }
+        }
+    }
+}
+
+/// Where the media data lies relative to the manifest box (BMFF): discriminates the known stco defect.
+fn bmff_rel(d: &[u8]) -> &'static str {
+    let Ok(b) = walk::bmff_boxes(d) else { return "rel=unknown" };
+    let mdat = b.iter().find(|x| &x.typ == b"mdat").map(|x| x.start);
+    let c2pa = b.iter().find(|x| x.uuid == Some(walk::BMFF_C2PA_UUID)).map(|x| x.start);
+    match (mdat, c2pa) {
+        (Some(m), Some(c)) if m < c => "rel=mdat-before-c2pa",
+        (Some(_), Some(_)) => "rel=mdat-after-c2pa",
+        _ => "rel=no-c2pa",
+    }
+}
+
+fn asset_case(run: &Run, a: &Asset) {
+    let k = embed::kind(a);
+    let base_media = walk::media(k, &a.data).unwrap_or_else(|e| kit::ev::machinery(format!("C09: walker cannot interpret seed {}: {e}", a.name)));
+    let removed_base = match remove(a.mime, &a.data) {
+        Ok(r) => Some(r),
+        Err(e) => {
+            run.eval();
+            let c = Ctx { run, a, k, base_media: vec![], removed_base: None };
+            let cls = if e.starts_with("PANIC") { "panic".to_string() } else { format!("op-error {}", kind_of_err(&e)) };
+            c.viol(cls, format!("remove on the seed fails: {e}"), "remove-seed", c.rel(&a.data, None), "");
+            None
+        }
+    };
+    let c = Ctx { run, a, k, base_media, removed_base };
+    if let Some(r) = &c.removed_base {
+        c.check_media("remove-seed", &a.data, r);
+    }
+    let (s_small, s_mid, s_mid2, s_big) = (embed::store(SMALL, 1), embed::store(MID, 2), embed::store(MID, 3), embed::store(BIG, 4));
+    for (name, s) in [("embed-small", &s_small), ("embed-mid", &s_mid), ("embed-big", &s_big)] {
+        let Some(e) = c.step(name, &a.data, Some(s)) else { continue };
+        let rm = format!("remove-after-{name}");
+        c.remove_equals_base(&rm, &e);
+        if name == "embed-mid" {
+            for (rn, rs) in [("replace-shrink", &s_small), ("replace-equal", &s_mid2), ("replace-grow", &s_big)] {
+                if let Some(r) = c.step(rn, &e, Some(rs)) {
+                    let rm = format!("remove-after-{rn}");
+                    c.remove_equals_base(&rm, &r);
+                }
+            }
+        }
+        if name == "embed-big" {
+            c.step("replace-big-to-small", &e, Some(&s_small));
+        }
+        if name == "embed-small" {
+            c.step("replace-small-to-mid", &e, Some(&s_mid));
+        }
+    }
+}
+
+pub fn run(run: &Run, replay: Option<&Value>) {
+    run.rule("per asset (seeds of every writable format + BMFF/HEIF layout grammar): embed {60, 333, 70001 B}, replace 333->{60, 333', 70001}, 70001->60, 60->333, remove after each, remove on the seed; \
+              after every operation the independent media list (non-manifest items in order + bytes addressed by every stored absolute offset) must equal the seed's, and remove(...) must equal remove(seed) byte for byte. \
+              non-trivial = operations that succeeded and whose result had an identical media list.");
+    run.assume("media content is what kit::walk::media extracts; container bookkeeping that has to change (RIFF/ID3/box sizes, the numeric value of offsets, the position of TIFF IFDs, ID3 tag version and padding, an xmlns:c2pa attribute and an empty <metadata> element in SVG) is not media content; the byte-for-byte demand is only made for remove(embed(X,S)) == remove(X), as the property states");
+    run.assume("seeds that already hold a C2PA box (layout grammar) count that box as manifest, so 'embed' on them is a replacement of a hand-built box by the SDK's own");
+    let thorough = run.tier.is_thorough();
+    if let Some(c) = replay {
+        let name = c["asset"].as_str().unwrap_or("");
+        let a = all_assets(true).into_iter().find(|x| x.name == name).unwrap_or_else(|| kit::ev::machinery(format!("C09 replay: no asset {name}")));
+        asset_case(run, &a); // all operations on that asset (cheap); the recorded op is among them
+        println!("replay: {} violation(s)", run.violation_count());
+        return;
+    }
+    let assets = all_assets(thorough);
+    // handler acceptance + determinism of the seeds
+    let mut usable = vec![];
+    for a in &assets {
+        let s = embed::store(100, 1);
+        let (x, y) = (save(a.mime, &a.data, &s), save(a.mime, &a.data, &s));
+        if x != y {
+            kit::ev::machinery(format!("C09: nondeterministic write for {}", a.name));
+        }
+        match x {
+            Ok(_) => usable.push(a.clone()),
+            Err(e) if e.starts_with("PANIC") => usable.push(a.clone()), // judged in the sweep
+            Err(e) => {
+                if !a.name.starts_with("bmff[") && !a.name.starts_with("heif[") {
+                    kit::ev::machinery(format!("C09: seed {} not accepted by its handler: {e}", a.name));
+                }
+                // generated layouts are valid by construction (the independent walker resolves every offset of them)
+                run.eval();
+                let c = Ctx { run, a, k: embed::kind(a), base_media: vec![], removed_base: None };
+                c.viol(format!("valid-layout-rejected {}", kind_of_err(&e)), e.clone(), "embed", c.rel(&a.data, None), "");
+            }
+        }
+    }
+    run.space(&format!("{} assets ({} seeds + {} generated BMFF/HEIF layouts, {} accepted by the handler) x 18 operations", assets.len(), embed::seeds().len(), assets.len() - embed::seeds().len(), usable.len()), (usable.len() * 18) as u64, true);
+    run.extra("layouts_generated", json!(assets.len() - embed::seeds().len()));
+    run.extra("assets_accepted", json!(usable.len()));
+    par::for_each(&usable, |a| asset_case(run, a));
+    for a in usable.iter().filter(|a| a.name.contains("mdat,moov,c2pa")).take(2) {
+        run.sample(json!({"asset":a.name,"op":"replace-grow"}));
+    }
+    run.sample(json!({"asset":"tiff-MM-2pages","op":"embed-big"}));
+    run.sample(json!({"asset":"avi-avix","op":"remove-after-embed-mid"}));
+    run.sample(json!({"asset":"mp3-rich","op":"replace-shrink"}));
 }
